@@ -236,6 +236,9 @@ func c14Run(c *Ctx) {
 	vals := []struct{ expr, class string }{
 		{"nil", "falsy"}, {False(), "falsy"}, {"0", "falsy"}, {"(-0)", "falsy"}, {"(0 * 5)", "falsy"}, {"(7 & 8)", "falsy"}, {"(1 >> 3)", "falsy"},
 		{`""`, "falsy"}, {`("" + "")`, "falsy"}, {"o.e", "falsy"}, {"a[0]", "falsy"}, {"emp()", "falsy"},
+		// zeros and empty texts made by built-ins
+		{BI("len", "[]"), "falsy"}, {BI("abs", "0"), "falsy"}, {BI("round", "0.2"), "falsy"}, {BI("min", "3", "0"), "falsy"}, {BI("max", "[0]"), "falsy"}, {BI("pow", "0", "2"), "falsy"}, {BI("sqrt", "0"), "falsy"}, {BI("sin", "0"), "falsy"}, {"(" + BI("len", "[1]") + " - 1)", "falsy"}, {BI("keys", "{}") + "== nil", "falsy"},
+		{BI("len", "[0]"), "truthy"}, {BI("abs", "-0.5"), "truthy"}, {BI("round", "0.5"), "truthy"}, {BI("append", "[]"), "truthy"}, {BI("keys", "{}"), "truthy"}, {`"\t"`, "truthy"}, {`"  "`, "truthy"}, {"\"\u00a0\"", "truthy"},
 		{True(), "truthy"}, {"1", "truthy"}, {"(-1)", "truthy"}, {"0.5", "truthy"}, {"0.001", "truthy"}, {"(7 & 3)", "truthy"}, {"((10 ** 400) - (10 ** 400))", "truthy"}, {"(10 ** 400)", "truthy"},
 		{`"0"`, "truthy"}, {`" "`, "truthy"}, {`("" + 0)`, "truthy"}, {`"` + K["false"] + `"`, "truthy"}, {"[]", "truthy"}, {"[0]", "truthy"}, {"{}", "truthy"}, {"p", "truthy"}, {B["len"], "truthy"},
 	}
